@@ -175,7 +175,21 @@ class Ctx:
         print(f"[{self.prop}] {s}", flush=True)
 
     # -- coq ----------------------------------------------------------------------------------
-    def run_translator(self, script, out_rel, *extra):
+    def regen_all(self, needed=()):
+        """Run every translator on /repo's current sources (Gen/*.v are never trusted from a previous run).
+        Returns True if all translators in `needed` (script names) succeeded."""
+        sys.path.insert(0, os.path.join(VERIF, "tools"))
+        import regen_all as ra
+
+        ok = True
+        for script, out_rel in ra.JOBS:
+            good, msg = self.run_translator(script, out_rel, record=script in needed)
+            if script in needed:
+                self.note(msg[-300:])
+                ok = ok and good
+        return ok
+
+    def run_translator(self, script, out_rel, *extra, record=True):
         """Run a translator on the overlay's sources; returns (ok, message)."""
         out = os.path.join(COQ, out_rel)
         with open(os.path.join(COQ, ".lock"), "w") as lk:
@@ -187,7 +201,8 @@ class Ctx:
             )
         msg = (r.stdout + r.stderr).strip()
         if r.returncode != 0:
-            self.broken_ties.append(f"translator {script}: {msg}")
+            if record:
+                self.broken_ties.append(f"translator {script}: {msg}")
             return False, msg
         return True, msg
 
